@@ -211,10 +211,14 @@ def run(ctx):
             b = np.asarray(back.values, dtype=float).squeeze()
             lo, hi = a.min(), a.max()
             step = (hi - lo) / (2 ** bits - 1) if hi > lo else 0.0
+            # the rescaling is done in the image's own dtype: a float32 image carries its own rounding
+            # (a few ulp of the value range) on top of the stated half quantisation step
+            vt = np.asarray(img.values).dtype
+            in_eps = 8 * float(np.finfo(vt).eps) * max(abs(lo), abs(hi)) if vt.kind == "f" else 0.0
             bad = None
             if a.shape != b.shape:
                 bad = ("shape", {"impl": b.shape})
-            elif hi > lo and not np.max(np.abs(a - b)) <= 0.5 * step * (1 + 1e-6) + 1e-9 * max(1, abs(hi)):
+            elif hi > lo and not np.max(np.abs(a - b)) <= 0.5 * step * (1 + 1e-6) + 1e-9 * max(1, abs(hi)) + in_eps:
                 bad = ("quantisation", {"max_err": float(np.max(np.abs(a - b))), "half_step": 0.5 * step})
             elif hi == lo and not np.all(np.isfinite(b)):
                 bad = ("constant_image", {"loaded": b.tolist()})
